@@ -65,31 +65,37 @@ F0s == {MId, IntMat(<<<<1, 1, 0>>, <<0, 1, 0>>, <<0, 0, 1>>>>), IntMat(<<<<2, 0,
 \* (velocity gradient k M over a duration T / k has the same flow map)
 Ts == {<<1, 2>>, QOne, <<9, 200>>}
 \* g(s) = 1 + a s along time ("t") or along the first position coordinate of x(t) = v t ("x")
-GClasses == {[via |-> "const", a |-> QZ], [via |-> "t", a |-> <<1, 2>>], [via |-> "x", a |-> <<1, 4>>]}
+\* ("t2": g(s) = 1 + a s^2 - a history whose mean rate over an interval is NOT its rate at the midpoint, so that
+\*  one-point quadrature of the velocity gradient is not exact)
+GClasses == {[via |-> "const", a |-> QZ], [via |-> "t", a |-> <<1, 2>>], [via |-> "x", a |-> <<1, 4>>], [via |-> "t2", a |-> Q(3)]}
 XVel1 == <<7, 10>>             \* first component of the pathline velocity used for "x"
 EffA(g) == IF g.via = "x" THEN QMul(g.a, XVel1) ELSE g.a
 
 \* gint = int_0^s g as a term in the run-time parameter s (local time within the step)
-GInt(g) == EAdd(EParam("s"), EMul(EQ(QMul(QHalf, EffA(g))), EMul(EParam("s"), EParam("s"))))
+GInt(g) == IF g.via = "t2"
+           THEN EAdd(EParam("s"), EMul(EQ(QDiv(g.a, Q(3))), EMul(EParam("s"), EMul(EParam("s"), EParam("s")))))
+           ELSE EAdd(EParam("s"), EMul(EQ(QMul(QHalf, EffA(g))), EMul(EParam("s"), EParam("s"))))
+\* tau = int_0^T g
+TauG(T, g) == IF g.via = "t2" THEN QAdd(T, QMul(QDiv(g.a, Q(3)), QMul(T, QMul(T, T)))) ELSE Tau(T, EffA(g))
 Step(fam, M, sol, T, g) == [fam |-> fam, M |-> MatToSeq(M), T |-> T, g |-> g, trace |-> MTrace(M), sol |-> sol, gint |-> GInt(g)]
 
 \* (duration, g class) pairs: the short duration only with constant g (rationals stay small)
 TG == {tg \in Ts \X GClasses : tg[2].via = "const" \/ tg[1] # <<9, 200>>}
 SingleCases ==
     {[kind |-> "single", F0 |-> MatToSeq(F0),
-      steps |-> << Step("nil", N, SolNil(N, Tau(tg[1], EffA(tg[2])), F0), tg[1], tg[2]) >>] :
+      steps |-> << Step("nil", N, SolNil(N, TauG(tg[1], tg[2]), F0), tg[1], tg[2]) >>] :
         N \in Nil2Set \cup Nil3Set, F0 \in F0s, tg \in TG}
   \cup
     {[kind |-> "single", F0 |-> MatToSeq(F0),
-      steps |-> << Step("lamN", MAdd(MScale(p[1], MId), p[2]), SolLamN(p[1], p[2], Tau(tg[1], EffA(tg[2])), F0), tg[1], tg[2]) >>] :
+      steps |-> << Step("lamN", MAdd(MScale(p[1], MId), p[2]), SolLamN(p[1], p[2], TauG(tg[1], tg[2]), F0), tg[1], tg[2]) >>] :
         p \in LamNSet, F0 \in F0s, tg \in TG}
   \cup
     {[kind |-> "single", F0 |-> MatToSeq(F0),
-      steps |-> << Step("sym", SymMat(Qm, l), SolSym(Qm, l, Tau(tg[1], EffA(tg[2])), F0), tg[1], tg[2]) >>] :
+      steps |-> << Step("sym", SymMat(Qm, l), SolSym(Qm, l, TauG(tg[1], tg[2]), F0), tg[1], tg[2]) >>] :
         Qm \in SymQs, l \in SymLs, F0 \in F0s, tg \in TG}
   \cup
     {[kind |-> "single", F0 |-> MatToSeq(F0),
-      steps |-> << Step("skew", MScale(w, Cross(k)), SolSkew(k, w, Tau(tg[1], EffA(tg[2])), F0), tg[1], tg[2]) >>] :
+      steps |-> << Step("skew", MScale(w, Cross(k)), SolSkew(k, w, TauG(tg[1], tg[2]), F0), tg[1], tg[2]) >>] :
         k \in SkewAxes, w \in {Q(1), Q(3)}, F0 \in F0s, tg \in TG}
 
 \* one very long call: simple shear to a shear strain of 100 in a single update (thousands of solver steps)
